@@ -29,6 +29,19 @@ pub enum VerifFeature {
     },
 }
 
+/// What the learner returned, recorded before the trainer looks anything up in it.
+#[derive(Clone, Debug, Default)]
+pub struct VerifRawLearner {
+    /// Labels in the learner's order.
+    pub labels: Vec<i32>,
+    /// Bias per class index (position in `labels`).
+    pub bias: Vec<f64>,
+    /// Per feature: the decoded feature and its coefficient per class index.
+    pub coef: Vec<(VerifFeature, Vec<f64>)>,
+    /// Number of features the learner reports.
+    pub num_features: usize,
+}
+
 /// What `Trainer::train` and the tag trainer computed (quantised).
 #[derive(Clone, Debug, Default)]
 pub struct VerifTrainTrace {
@@ -44,6 +57,10 @@ pub struct VerifTrainTrace {
     pub tag_biases: Vec<(String, usize, usize, i32)>,
     /// Tag weights: (token, category, class, feature, quantised weight), zero weights included.
     pub tag_weights: Vec<(String, usize, usize, VerifFeature, i32)>,
+    /// The boundary learner's raw output.
+    pub raw_boundary: Option<VerifRawLearner>,
+    /// The tag learners' raw outputs: (token, category, learner).
+    pub raw_tags: Vec<(String, usize, VerifRawLearner)>,
 }
 
 thread_local! {
